@@ -263,6 +263,24 @@ func checkEngineStart(p *Prog, r *Report, worker *ssa.Function) {
 	parent := spawner
 	if spawner.Parent() != nil {
 		parent = spawner.Parent()
+	} else {
+		// the closer may be a named function started with `go` by the engine's Start
+		var starters []*ssa.Function
+		for _, fn := range p.SrcFuncs() {
+			for _, b := range fn.Blocks {
+				for _, in := range b.Instrs {
+					if g, ok := in.(*ssa.Go); ok && StaticCallee(&g.Call) == spawner {
+						starters = append(starters, fn)
+					}
+				}
+			}
+		}
+		if len(starters) == 1 {
+			parent = starters[0]
+			if parent.Parent() != nil {
+				parent = parent.Parent()
+			}
+		}
 	}
 	var rets []ssa.Value
 	for _, b := range parent.Blocks {
@@ -279,6 +297,13 @@ func checkEngineStart(p *Prog, r *Report, worker *ssa.Function) {
 		for _, c := range dc {
 			if p.SameOrigin(c, rv) {
 				hit = true
+			}
+			for _, oa := range p.OriginsIP(c) {
+				for _, ob := range p.OriginsIP(rv) {
+					if oa == ob {
+						hit = true
+					}
+				}
 			}
 		}
 		// the early-error return path closes inline; those are the same channels
